@@ -632,6 +632,39 @@ def rule_factory_evaluated(ctx, res, rule='R-C02-fresh'):
         return
     kept = {b'a', b'c', b'k', b'ab', b'score', b'_hidden'}
     keywords = set(getattr(RL, 'KEYWORDS', ()))
+    # kept names that sit directly before / behind a name the factory leaves
+    # alone in the order of generation (`dn` before `do`): a filter that
+    # tests the two collections one after the other hands out the second
+    try:
+        cx0 = CX.Cx(ctx.model, ctx.consts)
+        cx0.budget = max(getattr(cx0, 'budget', 0), 20000000)
+        cx0.hooks = {'pico8.util:debug': lambda c, a, k, bound=None: None}
+
+        def probe():
+            gen = cx0.getattr(CX.ClassVal(cls), '_name_for_id')
+            fac = cx0.call(CX.ClassVal(cls), [], {})
+            fn = cx0.getattr(fac, 'get_short_name')
+            # move the factory's counter past the names asked about below:
+            # afterwards f(g) == g only for names it leaves alone
+            for i in range(0, 340):
+                cx0.call(fn, [b'burn_%03d_x' % i], {})
+            out = []
+            for i in range(0, 320):
+                g = cx0.call(gen, [i], {})
+                if isinstance(g, CX.Seq):
+                    g = bytes(g.items)
+                out.append((g, cx0.call(fn, [g], {}) == g))
+            return out
+        pp = cx0.explore(probe)
+        if len(pp) == 1 and not pp[0][0] and pp[0][1][0] == 'ok':
+            order = pp[0][1][1]
+            before = [a for (a, pa), (b, pb) in zip(order, order[1:])
+                      if pb and not pa]
+            behind = [b for (a, pa), (b, pb) in zip(order, order[1:])
+                      if pa and not pb]
+            kept |= set(before[:2] + before[-3:] + behind[:2])
+    except AnalysisError:
+        pass
     inst = 'generated short names are pairwise distinct and never a name ' \
         'the factory leaves unchanged (evaluated)'
     bad = []
